@@ -3,8 +3,19 @@
 //! request lines are then piped to `vmodel <domain>` (Lean) by `/verif/check`.
 mod rng;
 mod util;
+mod dom_svlv;
+mod dom_random;
+mod dom_words;
+mod simutil;
+mod dom_vcd;
+mod dom_comp;
 mod dom_pipeline;
 mod dom_store;
+mod vsets;
+mod dom_fragment;
+mod dom_order;
+mod dom_tokens;
+mod dom_migrate;
 
 fn main() {
     let args: Vec<String> = std::env::args().skip(1).collect();
@@ -15,7 +26,16 @@ fn main() {
     let opts = util::Opts::parse(&args[1..]);
     let rc = match args[0].as_str() {
         "store" => dom_store::main(&opts),
+        "fragment" => dom_fragment::main(&opts),
+        "order" => dom_order::main(&opts),
+        "tokens" => dom_tokens::main(&opts),
+        "migrate" => dom_migrate::main(&opts),
         "pipeline" => dom_pipeline::main(&opts),
+        "svlv" => dom_svlv::main(&opts),
+        "random" => dom_random::main(&opts),
+        "words" => dom_words::main(&opts),
+        "vcd" => dom_vcd::main(&opts),
+        "comp" => dom_comp::main(&opts),
         "hash" => {
             // content hashes exactly as the incremental cache computes them
             for f in &opts.rest {
